@@ -5,6 +5,9 @@
 //! stdin : one case per line,
 //!         `script=2,1 panics=1.0,2.1 [bombs=1.0] sched=random|pct3|dfs seed=123 iters=500 [spur=K|inf]`
 //!         (`bombs`: calls that panic with a payload whose own `Drop` panics)
+//!         `failspawn=k`: the k-th thread creation of every schedule is refused
+//!         (`Builder::spawn` returns `Err`; the `expect` in pool.rs panics under
+//!         the lock, the harness catches the unwind and goes on with the script)
 //!         `state=plain|w3|a16|a64`: the captured state of the task closure: one
 //!         pointer (default), three words, or ONE over-aligned value
 //!         (`#[repr(align(16))]` / `align(64)`) carrying a position-dependent
@@ -195,8 +198,10 @@ fn body(
     bombs: &Arc<HashSet<(usize, usize)>>,
     vmode: VecMode,
     smode: StateMode,
+    failspawn: Option<usize>,
 ) {
     sched_std::reset(); // registers the main task as thread 0
+    sched_std::set_fail_spawn(failspawn);
     let pool = ThreadPool::new();
     let mut shared: Vec<Option<usize>> = match vmode {
         VecMode::Pre(k, c) => {
@@ -259,7 +264,11 @@ fn body(
                 Some(x) => x.to_string(),
             })
             .collect();
-        log(format!("{}.{}", if escaped { "Z" } else { "T" }, slots.join(",")));
+        // T = returned, Z = left by an escaping panic, Y = left by the panic of
+        // a refused thread creation (`F` logged by the shim).
+        let refused = sched_std::take_spawn_failed();
+        let tag = if escaped && refused { "Y" } else if escaped { "Z" } else { "T" };
+        log(format!("{}.{}", tag, slots.join(",")));
 
         // A late write of a broken pool must hit live memory; a vector whose
         // length exceeds its capacity must not be used (or dropped) again.
@@ -341,6 +350,7 @@ struct Case {
     sched: Sched,
     vmode: VecMode,
     smode: StateMode,
+    failspawn: Option<usize>,
     seed: u64,
     iters: usize,
     /// Spurious wake-ups allowed per execution (None = unbounded).
@@ -355,6 +365,7 @@ fn parse(line: &str) -> Case {
         sched: Sched::Random,
         vmode: VecMode::Fresh,
         smode: StateMode::Plain,
+        failspawn: None,
         seed: 0,
         iters: 100,
         spur: None,
@@ -415,6 +426,7 @@ fn parse(line: &str) -> Case {
                     _ => panic!("bad state {v}"),
                 }
             }
+            "failspawn" => c.failspawn = Some(v.parse().expect("failspawn")),
             "seed" => c.seed = v.parse().expect("seed"),
             "iters" => c.iters = v.parse().expect("iters"),
             "spur" => c.spur = Some(if v == "inf" { None } else { Some(v.parse().expect("spur")) }),
@@ -464,6 +476,7 @@ fn run_chunk(
     bombs: Arc<HashSet<(usize, usize)>>,
     vmode: VecMode,
     smode: StateMode,
+    failspawn: Option<usize>,
 ) -> Result<usize, String> {
     let h = std::thread::Builder::new()
         .name("hx-sched-runner".into())
@@ -485,7 +498,7 @@ fn run_chunk(
                             }
                         }))
                     });
-                    body(&script, &panics, &bombs, vmode, smode)
+                    body(&script, &panics, &bombs, vmode, smode, failspawn)
                 };
                 match sched {
                     Sched::Random => {
@@ -533,7 +546,12 @@ fn replay(line: &str) -> String {
         // the same prefix and the first schedule of PCT hardly depends on the
         // seed, so those two stop at their first failure.
         let seed = case.seed.wrapping_add(all.len() as u64);
-        let r = run_chunk(case.sched, spur, seed, remaining, Arc::clone(&script), Arc::clone(&panics), Arc::clone(&bombs), case.vmode, case.smode);
+        let r = run_chunk(case.sched, spur, seed, remaining, Arc::clone(&script), Arc::clone(&panics), Arc::clone(&bombs), case.vmode, case.smode, case.failspawn);
+        // PCT refuses to go on when an execution had no scheduling step at all
+        // ("test closure did not exercise any concurrency"): that is the end of
+        // the exploration of a trivial script, not a failure of the pool.
+        let trivial = matches!(&r, Err(m) if m.contains("did not exercise any concurrency"));
+        let r: Result<usize, String> = if trivial { Ok(0) } else { r };
         let failure = r.as_ref().err().map(|m| classify(m));
         sched_std::finish(failure);
         let mut new = sched_std::take_finished();
